@@ -74,7 +74,7 @@ class AxisAngleAlignment(SpinAlignment):
             wigner_rotation_ids = {
                 i
                 for i in topology.outgoing_edge_ids
-                if get_parent_id(topology, i) != -1
+                if get_parent_id(topology, i) not in topology.incoming_edge_ids
             }
             for state_id in wigner_rotation_ids:
                 angles = compute_wigner_angles(topology, momenta, state_id)
@@ -287,7 +287,9 @@ def formulate_helicity_rotation(
 
 
 def get_opposite_helicity_sign(topology: Topology, state_id: int) -> Literal[-1, 1]:
-    if state_id != -1 and is_opposite_helicity_state(topology, state_id):
+    if state_id not in topology.incoming_edge_ids and is_opposite_helicity_state(
+        topology, state_id
+    ):
         return -1
     return 1
 
